@@ -158,6 +158,23 @@ INFO = {
              "late in a long run (t > dt / 1e-5): a flow checkpoint one step away from the body state is accepted"),
     "C19f": ("3D boundary-zone damping: the z `domain end` coordinate read from y_grid_field",
              "3D grid with ny != nz, width >= 1 (z-back slab)"),
+    # ---- round 7 (seeded/<id>g)
+    "C02g": ("2D free-stream update rewritten as a loop over axes that skips an axis when free_stream_velocity[axis] > 0.0 is false",
+             "2D Navier-Stokes simulator with free stream having a strictly negative component"),
+    "C04g": ("3D ENO3 z-front kernel, downwind branch: third term multiplies field[k+2] by velocity_z[k+1]",
+             "3D advection, negative z velocity varying along z"),
+    "C05g": ("2D simulator forms the velocity-recovery prefactor once as real_t(grid_size_x // 2 / x_range)",
+             "2D Navier-Stokes simulator with an odd number of cells along x"),
+    "C07g": ("3D vector spreading skips `force-free` markers, testing components [0], [1], [1] (never [2])",
+             "3D, n_components=3, a marker with exactly zero x and y force and non-zero z force"),
+    "C12g": ("2D out-of-plane curl, ghost-zone reset variant: the zeroed ring width becomes 2",
+             "reset_ghost_zone=True (the simulator's velocity recovery), cells two away from the boundary"),
+    "C14g": ("3D multiplicative filter swaps field and flux buffers after every 1D sweep and always reads one of them at the end",
+             "filter_vorticity with type multiplicative and an ODD order (3*order sweeps), a relabelling that moves z"),
+    "C15g": ("the velocity maximum of the stable time step computed by a numba parallel reduction over num_threads chunks of size n // num_threads (remainder never visited)",
+             "cell count not a multiple of num_threads and the velocity maximum in the last cells of the flattened array"),
+    "C20g": ("3D vector diffusion time step builds its flux kernel without the ghost-zone reset",
+             "field_type='vector', flux buffer with non-zero outer layer on entry (the 3D simulator's shared work array)"),
 }
 
 
@@ -175,7 +192,7 @@ def main():
                 ev.update(json.load(open(os.path.join(d, evn))))
         meta = {
             "breaks_property": sid[:3],
-            "round": 6 if sid.endswith("f") else 5 if sid.endswith("e") else 4 if sid.endswith("d") else 3 if sid.endswith("c") else 2 if sid.endswith("b") else 1,
+            "round": 7 if sid.endswith("g") else 6 if sid.endswith("f") else 5 if sid.endswith("e") else 4 if sid.endswith("d") else 3 if sid.endswith("c") else 2 if sid.endswith("b") else 1,
             "change": what,
             "files": files,
             "needs_to_manifest": needs,
